@@ -120,5 +120,11 @@ example : QSorted { (default : World) with undelQueue := [((100, 10), [{ del := 
     subst he
     decide
 
+
+/-- a chain restart (export → wipe → import) leaves the custody gap of every denom exactly where it was, in every state that
+    meets the restart theorem's hypotheses — which every state of every history from the empty store does (`reach_restart_ok`) -/
+theorem restart_keeps_the_custody_gap (w w' : World) (hok : RestartOK w) (h : reimport w = (.ok (), w')) (d : Denom) :
+    gap w' d = gap w d := restart_keeps_gap w w' hok h d
+
 end C01
 end Alliance
